@@ -30,7 +30,15 @@ def _leftmost_key(lam, prog, func):
     return False
 
 
-def _num_key(lam):
+def _num_key(lam, func=None):
+    if isinstance(lam, ast.Name) and func is not None and lam.id in func.module.funcs and lam.id not in func.locals:
+        g = func.module.funcs[lam.id]
+        rets = [n for n in walk_own(g.node) if isinstance(n, ast.Return)]
+        if len(rets) == 1 and len(g.params) == 1 and rets[0].value is not None:
+            return unparse(rets[0].value) == "%s.data['num']" % g.params[0]
+        return False
+    if isinstance(lam, ast.Call) and unparse(lam.func) in ('operator.itemgetter', 'itemgetter'):
+        return False
     if not isinstance(lam, ast.Lambda) or len(lam.args.args) != 1:
         return False
     return unparse(lam.body) == "%s.data['num']" % lam.args.args[0].arg
@@ -79,10 +87,10 @@ def _key_kind(prog, f, k):
     return None
 
 
-def _num_sorted(v):
-    """v is sorted(<x>, key=lambda t: t.data['num']) without reverse"""
+def _num_sorted(v, func=None):
+    """v is sorted(<x>, key=lambda t: t.data['num']) without reverse (the key may be a named module function)"""
     return isinstance(v, ast.Call) and isinstance(v.func, ast.Name) and v.func.id == 'sorted' and len(v.args) == 1 \
-        and _kw(v, 'reverse') is None and _num_key(_kw(v, 'key'))
+        and _kw(v, 'reverse') is None and _num_key(_kw(v, 'key'), func)
 
 
 def r_ordered(prog, tier):
@@ -117,18 +125,23 @@ def r_ordered(prog, tier):
     P = f.params[0]
     ok = None
     why = 'terminals() has a shape this rule does not recognise'
-    rec = any(isinstance(n, ast.Call) and prog.callee(n, f) == ('trees', 'terminals') for n in walk_own(f.node))
+    rec = any(isinstance(n, ast.Call) and prog.callee(n, f) == ('trees', 'terminals') for n in walk_own(f.node)) or any(
+        isinstance(n, ast.Call) and unparse(n.func) == 'map' and n.args and unparse(n.args[0]) in ('terminals', 'trees.terminals')
+        for n in walk_own(f.node))
     over_children = any(isinstance(n, (ast.For, ast.comprehension)) and unparse(n.iter) == '%s.children' % P
-                        for n in walk_own(f.node))
+                        for n in walk_own(f.node)) or any(
+        isinstance(n, ast.Call) and unparse(n.func) == 'map' and len(n.args) == 2 and unparse(n.args[1]) == '%s.children' % P
+        for n in walk_own(f.node))
     kinds = []
     for r in rets:
         v = r.value
         if isinstance(v, ast.List) and len(v.elts) == 1 and unparse(v.elts[0]) == P:
             kinds.append('leaf')
-        elif _num_sorted(v):
+        elif _num_sorted(v, f):
             kinds.append('sorted')
         elif isinstance(v, ast.Call) and isinstance(v.func, ast.Name) and v.func.id == 'sorted':
-            kinds.append('sorted-other')
+            k_ = _kw(v, 'key')
+            kinds.append('sorted-other' if (k_ is None or isinstance(k_, ast.Lambda) or _kw(v, 'reverse') is not None) else '?')
         elif isinstance(v, ast.Name):
             kinds.append('unsorted-name')
         elif v is not None and any(isinstance(x, ast.Attribute) and x.attr == 'children' and unparse(x.value) == P
@@ -330,7 +343,7 @@ def _raw_context(n, par, parents):
     if isinstance(n.ctx, (ast.Store, ast.Del)):
         return None
     if isinstance(par, ast.Attribute) and par.value is n:
-        if par.attr in ('append', 'remove', 'insert'):
+        if par.attr in ('append', 'remove', 'insert', 'extend'):
             return None
         if par.attr in ('index', 'count'):
             return (par.attr == 'count', 'position in the stored list is order-dependent'
@@ -558,7 +571,9 @@ def r_expnum(prog, tier):
         # (N2b) left to right within a level
         any_sort = any((isinstance(c.func, ast.Name) and c.func.id == 'sorted' and _kw(c, 'key') is not None)
                        or (isinstance(c.func, ast.Attribute) and c.func.attr == 'sort') for c in all_calls)
-        if not any_leftmost_sort and (any_sort or prog.opaque_calls(f, [lvname] if lvname else [])):
+        helper_calls = [c for c in all_calls if prog.callee(c, f) is not None and prog.callee(c, f) != ('trees', 'levels')
+                        and prog.callee(c, f)[1] not in ('terminals', 'children')]
+        if not any_leftmost_sort and (any_sort or helper_calls or prog.opaque_calls(f, [lvname] if lvname else [])):
             l2r, whyl = None, 'a sort with a key this rule does not recognise decides the order inside a level'
         elif not any_leftmost_sort:
             l2r, whyl = False, 'nodes of one level are never sorted by their leftmost token: they are numbered in the order ' \
@@ -613,6 +628,10 @@ def r_nav(prog, tier):
                 continue
             src = it.args[0]
             start = 0
+            estart = 0
+            es = it.args[1] if len(it.args) > 1 else _kw(it, 'start')
+            if es is not None:
+                estart = es.value if isinstance(es, ast.Constant) and isinstance(es.value, int) else None
             lst = None
             if isinstance(src, ast.Subscript) and isinstance(src.slice, ast.Slice) and isinstance(src.value, ast.Name):
                 lst = src.value.id
@@ -632,8 +651,8 @@ def r_nav(prog, tier):
                         k = 0
                     elif isinstance(s, ast.BinOp) and unparse(s.left) == iv and isinstance(s.right, ast.Constant):
                         k = s.right.value if isinstance(s.op, ast.Add) else -s.right.value
-                if match and k is not None and start is not None:
-                    off = k - start
+                if match and k is not None and start is not None and estart is not None:
+                    off = k + estart - start
                     ok = off == want
                     why = 'returns %s[%s%+d] for the element found at slice offset %d: neighbour offset %+d' \
                           % (lst, iv, k, start, off)
